@@ -698,3 +698,22 @@ impl<K: Ord, V: Clone + Default + KeyValue<K>> SetTree<K, V> {
         }
     }
 }
+
+#[cfg(itree_verif)]
+impl<K: Ord, V: Clone + Default + KeyValue<K>> SetTree<K, V> {
+    /// Read-only copy of the arena (verification hook).
+    pub fn verif_snapshot(&self) -> crate::verif::ArenaSnap<V> {
+        crate::verif::ArenaSnap {
+            root: self.root,
+            slots: self.store.buffer.iter().map(|n| crate::verif::SlotSnap {
+                parent: n.parent,
+                left: n.left,
+                right: n.right,
+                black: n.color == Color::Black,
+                payload: n.value.clone(),
+            }).collect(),
+            unused: self.store.unused.clone(),
+            unused_capacity: self.store.unused.capacity(),
+        }
+    }
+}
